@@ -3,7 +3,8 @@ from vlib.framework import PUnit, LUnit, BUnit
 from bounded import b_links as B
 from contracts import links as L
 
-P_UNITS = [PUnit("link-atoms-identify-one-atom", L.CONTRACTS, L.REG)]
+P_UNITS = [PUnit("link-atoms-identify-one-atom", L.CONTRACTS, L.REG),
+           LUnit("veto-before-effect", L.lemma_veto_before_effect)]
 
 
 def build(tier, seed):
